@@ -1006,3 +1006,26 @@ v("C15", "getShape-default-traversal", "fire", F,
 v("C15", "silent-len-lazy-loop-spelled-sum", "silent", F,
   "            len_ = 0\n            for _ in self.iterOccupancy(tick=False):\n                len_ += 1\n            return len_",
   "            return sum(1 for _ in self.iterOccupancy(tick=False))", None)
+
+
+# round e (seeded/<id>-e): breaks of a different kind (stale caches, hoisted
+# conditions, helpers reused under a different condition, shared state)
+seed("C01", "C01-e", "C01.R4")
+seed("C02", "C02-e", "C02.R3")
+seed("C05", "C02-e", "C05.R3")
+seed("C04", "C04-e", "C04.R5")
+seed("C05", "C05-e", "C05.R1")
+seed("C07", "C07-e", "C07.R5")
+seed("C08", "C08-e", "C08.R5")
+seed("C09", "C09-e", "C09.R4")
+seed("C10", "C10-e", "C10.R2")
+seed("C11", "C11-e", "C11.R5")
+seed("C12", "C12-e", "C12.R2")
+seed("C13", "C13-e", "C13.R2")
+seed("C14", "C14-e", "C14.R1")
+seed("C15", "C15-e", "C15.R8")
+seed("C16", "C16-e", "C16.R5")
+seed("C17", "C17-e", "C17.R9")
+seed("C18", "C18-e", "C18.R3")
+seed("C19", "C19-e", "C19.R2")
+seed("C20", "C20-e", "C20.R9")
